@@ -74,10 +74,16 @@ static void put_prefix(Ev *ev, const ByteBuffer *p)
 }
 static void put_sink(Ev *ev) { for (size_t i = 0; i < sinkn; i++) obs(ev, sinkrec[i]); }
 
+/* for the prefix of unbounded width every second call goes through the lenp_* front ends of the header instead of flenp_*(LENP_VARIABLE, ...) */
+static LengthPrefixKind cur_kind;
+static unsigned wcount;
+static int usew(void) { return cur_kind == LENP_VARIABLE && (wcount++ & 1); }
+
 void adapter_exec(Ev *ev)
 {
     if (ev_is(ev, "@")) return;
     LengthPrefixKind k = (LengthPrefixKind)ev->a[0];
+    cur_kind = k;
     Sink sink; FlavSink fk;
     flav_sink_init(&sink, &fk, snk_chunk, NULL, harness_flavour);
     sinkn = 0;
@@ -86,7 +92,7 @@ void adapter_exec(Ev *ev)
         unsigned char one = 0;
         LengthPrefixBuffer lpb;
         memset(&lpb, 0xA5, sizeof lpb);       /* the encoders must set every field they hand back */
-        int rc = flenp_memory_encode(k, &lpb, &one, (size_t)n);
+        int rc = (usew() ? lenp_memory_encode(&lpb, &one, (size_t)n) : flenp_memory_encode(k, &lpb, &one, (size_t)n));
         obs(ev, rcc(rc));
         if (rc >= 0) {
             if ((n >> 32) != 0) obs(ev, -8); else put_prefix(ev, &lpb.prefix);
@@ -99,7 +105,8 @@ void adapter_exec(Ev *ev)
         ByteBuffer b; unsigned char *blk = mkbuf(&b, ev->a + 1);
         LengthPrefixBuffer lpb;
         memset(&lpb, 0xA5, sizeof lpb);       /* the encoders must set every field they hand back */
-        int rc = ev_is(ev, "benc") ? flenp_buffer_encode(k, &lpb, &b) : flenp_buffer_encode_n(k, &lpb, &b, (size_t)ev->a[4]);
+        int rc = ev_is(ev, "benc") ? (usew() ? lenp_buffer_encode(&lpb, &b) : flenp_buffer_encode(k, &lpb, &b))
+                                   : (usew() ? lenp_buffer_encode_n(&lpb, &b, (size_t)ev->a[4]) : flenp_buffer_encode_n(k, &lpb, &b, (size_t)ev->a[4]));
         obs(ev, rcc(rc));
         if (rc >= 0) {
             obs(ev, (long long)b.offset); obs(ev, (long long)b.used); obs(ev, -7);
@@ -123,12 +130,12 @@ void adapter_exec(Ev *ev)
             LengthPrefixChunks lpc;
             memset(&lpc, 0xA5, sizeof lpc);
             lpc.payload.chunks = nc; lpc.payload.active = act; lpc.payload.chunk = cs;
-            int rc = flenp_chunks_use(k, &lpc);
+            int rc = (usew() ? lenp_chunks_use(&lpc) : flenp_chunks_use(k, &lpc));
             obs(ev, rcc(rc));
             if (rc >= 0) { obs(ev, -7); put_prefix(ev, &lpc.prefix); }
         } else {
             ByteChunks bc = { nc, act, cs };
-            ssize_t rc = flenp_chunks_to_sink(k, &sink, &bc);
+            ssize_t rc = (usew() ? lenp_chunks_to_sink(&sink, &bc) : flenp_chunks_to_sink(k, &sink, &bc));
             obs(ev, rcc(rc)); obs(ev, -7);
             if (rc >= 0) put_sink(ev);
         }
@@ -147,7 +154,7 @@ void adapter_exec(Ev *ev)
         chunk_sink_init(&ak, lenp_acc_sink, &offered);
         unsigned char *one = xblock(1);
         size_t n = (size_t)SSIZE_MAX - (size_t)ev->a[1];
-        ssize_t rc = flenp_memory_to_sink(k, &ak, one, n);
+        ssize_t rc = (usew() ? lenp_memory_to_sink(&ak, one, n) : flenp_memory_to_sink(k, &ak, one, n));
         if (rc < 0) { obs(ev, -1); obs(ev, (long long)offered); }
         else { obs(ev, 0); obs(ev, (long long)((unsigned long long)SSIZE_MAX - (unsigned long long)rc)); obs(ev, offered == (unsigned long long)rc); }
         xfree(one);
@@ -157,7 +164,7 @@ void adapter_exec(Ev *ev)
         size_t n = (size_t)ev->a[1];
         unsigned char *blk = xblock(n);
         for (size_t i = 0; i < n; i++) blk[i] = tok(i);
-        ssize_t rc = flenp_memory_to_sink(k, &sink, blk, n);
+        ssize_t rc = (usew() ? lenp_memory_to_sink(&sink, blk, n) : flenp_memory_to_sink(k, &sink, blk, n));
         obs(ev, rcc(rc)); obs(ev, -7);
         if (rc >= 0) put_sink(ev);
         xfree(blk);
@@ -166,7 +173,8 @@ void adapter_exec(Ev *ev)
     if (ev_is(ev, "bsink") || ev_is(ev, "bsinkn")) {
         ByteBuffer b; unsigned char *blk = mkbuf(&b, ev->a + 1);
         ByteBuffer before = b;
-        ssize_t rc = ev_is(ev, "bsink") ? flenp_buffer_to_sink(k, &sink, &b) : flenp_buffer_to_sink_n(k, &sink, &b, (size_t)ev->a[4]);
+        ssize_t rc = ev_is(ev, "bsink") ? (usew() ? lenp_buffer_to_sink(&sink, &b) : flenp_buffer_to_sink(k, &sink, &b))
+                                        : (usew() ? lenp_buffer_to_sink_n(&sink, &b, (size_t)ev->a[4]) : flenp_buffer_to_sink_n(k, &sink, &b, (size_t)ev->a[4]));
         obs(ev, rcc(rc));
         if (rc >= 0) { obs(ev, (long long)b.offset); obs(ev, (long long)b.used); }
         else { obs(ev, (long long)before.offset); obs(ev, (long long)before.used); } /* refusal: buffer position not compared */
@@ -183,7 +191,7 @@ void adapter_exec(Ev *ev)
         Source source = CHUNK_SOURCE_INIT(src_chunk, &s);
         unsigned char *dst = cap ? xblock(cap) : xblock0();
         if (cap) memset(dst, 170, cap);
-        ssize_t rc = flenp_memory_from_source(k, &source, dst, cap);
+        ssize_t rc = (usew() ? lenp_memory_from_source(&source, dst, cap) : flenp_memory_from_source(k, &source, dst, cap));
         obs(ev, rcc(rc));
         if (rc >= 0) { obs(ev, (long long)s.pos); obs(ev, -7); for (size_t i = 0; i < cap; i++) obs(ev, dst[i]); }
         else obs(ev, -7);
@@ -202,7 +210,7 @@ void adapter_exec(Ev *ev)
         memset(blk, 170, size);
         memset(blk, 171, used);
         ByteBuffer b = BYTE_BUFFER_INIT(blk, size, used, off);
-        ssize_t rc = flenp_buffer_from_source(k, &source, &b);
+        ssize_t rc = (usew() ? lenp_buffer_from_source(&source, &b) : flenp_buffer_from_source(k, &source, &b));
         obs(ev, rcc(rc));
         if (rc >= 0) {
             obs(ev, (long long)s.pos); obs(ev, (long long)b.used); obs(ev, (long long)b.offset); obs(ev, -7);
@@ -227,7 +235,7 @@ void adapter_exec(Ev *ev)
         obs(ev, 0);
         while (s.pos < s.n && frames < 64) {
             sinkn = 0;
-            ssize_t rc = flenp_decode_source_to_sink(k, &source, &sink);
+            ssize_t rc = (usew() ? lenp_decode_source_to_sink(&source, &sink) : flenp_decode_source_to_sink(k, &source, &sink));
             frames++;
             if (rc < 0) { obs(ev, -1); obs(ev, 0); break; }
             obs(ev, rc); obs(ev, (long long)sinkn); put_sink(ev);
